@@ -264,6 +264,20 @@ Fixpoint walk_offsets (vs as_ : list sample) (sched : list sched_entry) (cursor 
         end
   end.
 
+(* finalize_standard's interleaved pass: samples are written while a u32 cursor
+   advances; a cursor overflow panics after the sample at hand was written *)
+Fixpoint walk_std (vs as_ : list sample) (sc : list sched_entry) (cursor : N) (acc : list bytes)
+         (vo ao : list N) : (list bytes * list N * list N * bool) :=
+  match sc with
+  | [] => (rev acc, rev vo, rev ao, true)
+  | e :: t =>
+      let d := sched_data vs as_ e in
+      let vo' := match snd (fst e) with KVideo => cursor :: vo | KAudio => vo end in
+      let ao' := match snd (fst e) with KAudio => cursor :: ao | KVideo => ao end in
+      if U32MAX <? cursor + u32 (len d) then (rev (d :: acc), rev vo', rev ao', false)
+      else walk_std vs as_ t (cursor + u32 (len d)) (d :: acc) vo' ao'
+  end.
+
 (** * finalize: a pure write plan (buffers in write order, optional terminal error) *)
 Inductive fin_err := FinIo (k : io_kind) | FinPanic (p : panic_site).
 Definition plan := (list bytes * option fin_err)%type.
@@ -316,20 +330,7 @@ Definition finalize_standard (w : writer) (v : video_track) (m : option metadata
       else
         let sched := compute_interleave_schedule vs as_ in
         let pre := [ftyp; be32 mdat_size; T_mdat] in
-        (* samples are written while the cursor advances; a cursor overflow
-           panics after the preceding samples were written *)
-        let fix go (sc : list sched_entry) (cursor : N) (acc : list bytes) (vo ao : list N)
-          : (list bytes * list N * list N * bool) :=
-          match sc with
-          | [] => (rev acc, rev vo, rev ao, true)
-          | e :: t =>
-              let d := sched_data vs as_ e in
-              let vo' := match snd (fst e) with KVideo => cursor :: vo | KAudio => vo end in
-              let ao' := match snd (fst e) with KAudio => cursor :: ao | KVideo => ao end in
-              if U32MAX <? cursor + u32 (len d) then (rev (d :: acc), rev vo', rev ao', false)
-              else go t (cursor + u32 (len d)) (d :: acc) vo' ao'
-          end in
-        let '(bufs, vo, ao, ok) := go sched (len ftyp + 8) [] [] [] in
+        let '(bufs, vo, ao, ok) := walk_std vs as_ sched (len ftyp + 8) [] [] [] in
         if negb ok then (pre ++ bufs, Some (FinPanic PanicCursorOverflow))
         else
           match moov_of v (from_samples vs vo 1 (w_vlast_delta w))
